@@ -33,7 +33,7 @@ def run_chunk(args):
             script += c["cmds"]
         try:
             p = subprocess.run([exe, wd], input=("\n".join(script) + "\n").encode(), stdout=subprocess.PIPE,
-                               stderr=subprocess.STDOUT, env=env, timeout=600)
+                               stderr=subprocess.STDOUT, env=env, timeout=240)
             out, rc = p.stdout.decode("utf-8", "replace"), p.returncode
         except subprocess.TimeoutExpired as ex:
             out, rc = (ex.stdout or b"").decode("utf-8", "replace") + "\nHANG process", 124
